@@ -297,6 +297,27 @@ struct Scenario {
     /// request shutdown by dropping the `HttpServer` (CloseHandle::drop) and
     /// awaiting a `wait_for_shutdown()` future, instead of `close().await`
     via_drop: bool,
+    /// who drives close(): a task on the server's runtime, or a plain thread
+    /// outside any Tokio runtime - with futures::executor::block_on, or by
+    /// polling the future by hand with a no-op waker
+    close_on: CloseOn,
+    /// this many more waiters are consumed through futures::select! (the
+    /// FusedFuture interface), polled (again) only after close() has returned
+    fused: u32,
+}
+
+#[derive(Clone, Copy, Debug, PartialEq)]
+enum CloseOn {
+    Runtime,
+    BlockOn,
+    Manual,
+}
+fn co_s(c: CloseOn) -> &'static str {
+    match c {
+        CloseOn::Runtime => "runtime",
+        CloseOn::BlockOn => "block_on",
+        CloseOn::Manual => "manual",
+    }
 }
 
 impl Scenario {
@@ -307,6 +328,8 @@ impl Scenario {
             "waiters": self.waiters,
             "hold_ms": self.hold_ms,
             "via_drop": self.via_drop,
+            "close_on": co_s(self.close_on),
+            "fused": self.fused,
             "conns": self.conns.iter().map(|(c, s)| {
                 let v = match s {
                     Script::IdleFresh => json!({"k": "idle"}),
@@ -354,6 +377,12 @@ impl Scenario {
             waiters: v.get("waiters").and_then(|x| x.as_u64()).unwrap_or(0) as u32,
             hold_ms: v.get("hold_ms").and_then(|x| x.as_u64()).unwrap_or(200),
             via_drop: v.get("via_drop").and_then(|x| x.as_bool()).unwrap_or(false),
+            close_on: match v.get("close_on").and_then(|x| x.as_str()).unwrap_or("runtime") {
+                "block_on" => CloseOn::BlockOn,
+                "manual" => CloseOn::Manual,
+                _ => CloseOn::Runtime,
+            },
+            fused: v.get("fused").and_then(|x| x.as_u64()).unwrap_or(0) as u32,
         })
     }
 }
@@ -957,6 +986,52 @@ fn run_scenario(sc: &Scenario) -> Outcome {
             sh2.push(Ev::Waiter(j, r.is_ok()));
         });
     }
+    // waiters consumed through the FusedFuture interface (futures::select!):
+    // the handle is taken before close(); odd ones are polled once before
+    // (pending), all are polled (again) only after close() has returned - or
+    // panicked.  is_terminated() must be false until the handle has yielded
+    // its output: select! does not poll a future that says it is terminated.
+    let close_panicked = Arc::new(AtomicBool::new(false));
+    let fused_done = Arc::new(AtomicUsize::new(0));
+    let anotes = Arc::new(Mutex::new(Vec::<String>::new()));
+    for j in (sc.waiters + 1)..=(sc.waiters + sc.fused) {
+        use futures::future::{FusedFuture, FutureExt};
+        let mut w = server.wait_for_shutdown();
+        let (sh2, cp, fd, an) = (sh.clone(), close_panicked.clone(), fused_done.clone(), anotes.clone());
+        runtime.spawn(async move {
+            if j % 2 == 1 {
+                if futures::poll!(&mut w).is_ready() {
+                    an.lock().unwrap().push("fused:ready-before-close".into());
+                }
+            }
+            let t0 = Instant::now();
+            loop {
+                let returned = sh2.snapshot().iter().any(|e| matches!(e, Ev::CloseReturned(_)));
+                if returned || cp.load(Ordering::SeqCst) || t0.elapsed() >= LONG {
+                    break;
+                }
+                tokio::time::sleep(Duration::from_millis(3)).await;
+            }
+            if w.is_terminated() {
+                an.lock().unwrap().push("fused:is_terminated-before-output".into());
+            }
+            let mut timer = Box::pin(tokio::time::sleep(Duration::from_secs(10))).fuse();
+            let r = futures::select! {
+                r = w => Some(r),
+                _ = timer => None,
+            };
+            match r {
+                Some(r) => {
+                    if !w.is_terminated() {
+                        an.lock().unwrap().push("fused:not-terminated-after-output".into());
+                    }
+                    sh2.push(Ev::Waiter(j, r.is_ok()));
+                }
+                None => an.lock().unwrap().push("fused:never-released(select!-skipped-it)".into()),
+            }
+            fd.fetch_add(1, Ordering::SeqCst);
+        });
+    }
     let ready = AtomicUsize::new(0);
     let client_rt = if sc.transport == Transport::H1 {
         None
@@ -991,7 +1066,7 @@ fn run_scenario(sc: &Scenario) -> Outcome {
         // close()
         let sh2 = sh.clone();
         let via_drop = sc.via_drop;
-        runtime.spawn(async move {
+        let close_fut = async move {
             if via_drop {
                 let f = server.wait_for_shutdown();
                 sh2.push(Ev::CloseCalled);
@@ -1005,7 +1080,41 @@ fn run_scenario(sc: &Scenario) -> Outcome {
                 let r = server.close().await;
                 sh2.push(Ev::CloseReturned(r.is_ok()));
             }
-        });
+        };
+        match sc.close_on {
+            CloseOn::Runtime => {
+                runtime.spawn(close_fut);
+            }
+            // a plain thread, outside any Tokio runtime context
+            how => {
+                let (cp, an, sh3) = (close_panicked.clone(), anotes.clone(), sh.clone());
+                std::thread::spawn(move || {
+                    let r = dsverif::util::catch(move || {
+                        if how == CloseOn::BlockOn {
+                            futures::executor::block_on(close_fut)
+                        } else {
+                            // by hand, with a waker that does nothing
+                            let waker = futures::task::noop_waker();
+                            let mut cx = std::task::Context::from_waker(&waker);
+                            let mut f = Box::pin(close_fut);
+                            let t0 = Instant::now();
+                            while std::future::Future::poll(f.as_mut(), &mut cx).is_pending() {
+                                if t0.elapsed() >= LONG {
+                                    break;
+                                }
+                                std::thread::sleep(Duration::from_millis(2));
+                            }
+                        }
+                    });
+                    if r.is_err() {
+                        an.lock().unwrap().push("close()-panicked-off-runtime".into());
+                        // the flag the scenario waits for, even if the panic came early
+                        sh3.close_called.store(true, Ordering::SeqCst);
+                        cp.store(true, Ordering::SeqCst);
+                    }
+                });
+            }
+        }
         // shutdown is held open by the in-flight handlers for a while
         sh.wait_flag(&sh.close_called, LONG);
         std::thread::sleep(Duration::from_millis(sc.hold_ms));
@@ -1016,9 +1125,11 @@ fn run_scenario(sc: &Scenario) -> Outcome {
         sh.release2.store(true, Ordering::SeqCst);
         // close() returns, the waiters are released
         let w = sc.waiters as usize;
+        let nf = sc.fused as usize;
         let done = sh.wait_for(LONG, |l| {
-            l.iter().any(|e| matches!(e, Ev::CloseReturned(_)))
-                && l.iter().filter(|e| matches!(e, Ev::Waiter(..))).count() >= w
+            (l.iter().any(|e| matches!(e, Ev::CloseReturned(_))) || close_panicked.load(Ordering::SeqCst))
+                && l.iter().filter(|e| matches!(e, Ev::Waiter(j, _) if *j as usize <= w)).count() >= w
+                && fused_done.load(Ordering::SeqCst) >= nf
         });
         match done {
             None => notes.lock().unwrap().push("close-or-waiters-not-done-in-60s".into()),
@@ -1042,7 +1153,9 @@ fn run_scenario(sc: &Scenario) -> Outcome {
         r.shutdown_background();
     }
     runtime.shutdown_background();
-    Outcome { trace, notes: notes.into_inner().unwrap() }
+    let mut notes = notes.into_inner().unwrap();
+    notes.extend(anotes.lock().unwrap().iter().cloned());
+    Outcome { trace, notes }
 }
 
 // ------------------------------------------------------------------ output
@@ -1051,7 +1164,7 @@ fn line_for(sc: &Scenario, out: &Outcome, group: &'static str) -> Line {
     let coq = format!(
         "(C17 {} {} [{}])",
         if sc.detached { "Detached" } else { "CancelOnDisconnect" },
-        sc.waiters,
+        sc.waiters + sc.fused,
         out.trace.iter().map(|e| e.coq()).collect::<Vec<_>>().join("; ")
     );
     let mut tags = vec![
@@ -1060,6 +1173,12 @@ fn line_for(sc: &Scenario, out: &Outcome, group: &'static str) -> Line {
         format!("transport:{}", tr_s(sc.transport)),
         format!("waiters:{}", sc.waiters),
         format!("via:{}", if sc.via_drop { "drop+wait_for_shutdown" } else { "close" }),
+        format!("close-driven-by:{}", match sc.close_on {
+            CloseOn::Runtime => "task-on-runtime",
+            CloseOn::BlockOn => "std-thread+futures-block_on",
+            CloseOn::Manual => "std-thread+manual-poll-noop-waker",
+        }),
+        format!("fused-waiters:{}", sc.fused),
         format!("hold:{}", if sc.hold_ms >= 10000 { "12s" } else if sc.hold_ms >= 3000 { "6.5s" } else { "<0.4s" }),
     ];
     let t = &out.trace;
